@@ -1,0 +1,128 @@
+//go:build verif
+
+package pstoremem
+
+import (
+	"fmt"
+	"time"
+
+	"github.com/libp2p/go-libp2p/core/peer"
+	ma "github.com/multiformats/go-multiaddr"
+)
+
+// Read-only white-box accessors for the runtime-monitoring harness (/verif, property C09).
+// Nothing here is compiled without the `verif` build tag.
+
+// VerifAddrEntry is a copy of one stored address entry.
+type VerifAddrEntry struct {
+	Peer   peer.ID
+	Addr   ma.Multiaddr
+	TTL    time.Duration
+	Expiry time.Time
+	InHeap bool
+}
+
+func verifBook(ab any) (*memoryAddrBook, error) {
+	switch v := ab.(type) {
+	case *memoryAddrBook:
+		return v, nil
+	case *pstoremem:
+		return v.memoryAddrBook, nil
+	}
+	return nil, fmt.Errorf("verif: %T is not the in-memory address book", ab)
+}
+
+// VerifCheckAddrBook walks the in-memory address book under its own lock and returns the first
+// structural inconsistency between the per-peer maps, the expiry heap and the signed-record map:
+//   - every entry with a non-connected TTL is in the expiry heap at its heapIndex,
+//   - every entry with a connected TTL is not in the heap (heapIndex == -1),
+//   - the heap holds exactly the non-connected entries and satisfies the heap property,
+//   - no per-peer map is empty, every entry is filed under its own peer and address,
+//   - no signed peer record is kept for a peer without addresses.
+func VerifCheckAddrBook(ab any) error {
+	mab, err := verifBook(ab)
+	if err != nil {
+		return err
+	}
+	mab.mu.RLock()
+	defer mab.mu.RUnlock()
+	pa := &mab.addrs
+	nonConnected := 0
+	for p, m := range pa.Addrs {
+		if len(m) == 0 {
+			return fmt.Errorf("empty address map kept for peer %s", p)
+		}
+		for k, e := range m {
+			if e == nil {
+				return fmt.Errorf("nil entry for peer %s", p)
+			}
+			if e.Peer != p {
+				return fmt.Errorf("entry %s filed under peer %s but carries peer %s", e.Addr, p, e.Peer)
+			}
+			if k != string(e.Addr.Bytes()) {
+				return fmt.Errorf("entry %s of peer %s filed under a different address key", e.Addr, p)
+			}
+			if e.IsConnected() {
+				if e.heapIndex != -1 {
+					return fmt.Errorf("connected-TTL entry %s of peer %s has heapIndex %d, want -1", e.Addr, p, e.heapIndex)
+				}
+				continue
+			}
+			nonConnected++
+			if e.heapIndex < 0 || e.heapIndex >= len(pa.expiringHeap) {
+				return fmt.Errorf("non-connected entry %s of peer %s (ttl %s) is not in the expiry heap (heapIndex %d, heap length %d)", e.Addr, p, e.TTL, e.heapIndex, len(pa.expiringHeap))
+			}
+			if pa.expiringHeap[e.heapIndex] != e {
+				return fmt.Errorf("non-connected entry %s of peer %s: heap slot %d holds another entry", e.Addr, p, e.heapIndex)
+			}
+		}
+	}
+	if nonConnected != len(pa.expiringHeap) {
+		return fmt.Errorf("expiry heap holds %d entries, the maps hold %d non-connected entries", len(pa.expiringHeap), nonConnected)
+	}
+	for i, e := range pa.expiringHeap {
+		if e == nil {
+			return fmt.Errorf("nil heap slot %d", i)
+		}
+		if e.heapIndex != i {
+			return fmt.Errorf("heap slot %d holds an entry with heapIndex %d", i, e.heapIndex)
+		}
+		if got, ok := pa.Addrs[e.Peer][string(e.Addr.Bytes())]; !ok || got != e {
+			return fmt.Errorf("heap slot %d (%s of peer %s) is not in the address maps", i, e.Addr, e.Peer)
+		}
+		if i > 0 {
+			parent := pa.expiringHeap[(i-1)/2]
+			if e.Expiry.Before(parent.Expiry) {
+				return fmt.Errorf("heap property broken at slot %d: expiry %s before its parent's %s", i, e.Expiry, parent.Expiry)
+			}
+		}
+	}
+	for p := range mab.signedPeerRecords {
+		if len(pa.Addrs[p]) == 0 {
+			return fmt.Errorf("signed peer record kept for peer %s which has no addresses", p)
+		}
+	}
+	return nil
+}
+
+// VerifDumpAddrBook returns a copy of every stored entry (expired but not yet collected ones
+// included) and the sequence numbers of the stored signed peer records.
+func VerifDumpAddrBook(ab any) ([]VerifAddrEntry, map[peer.ID]uint64, error) {
+	mab, err := verifBook(ab)
+	if err != nil {
+		return nil, nil, err
+	}
+	mab.mu.RLock()
+	defer mab.mu.RUnlock()
+	var out []VerifAddrEntry
+	for p, m := range mab.addrs.Addrs {
+		for _, e := range m {
+			out = append(out, VerifAddrEntry{Peer: p, Addr: e.Addr, TTL: e.TTL, Expiry: e.Expiry, InHeap: e.heapIndex != -1})
+		}
+	}
+	seqs := make(map[peer.ID]uint64, len(mab.signedPeerRecords))
+	for p, s := range mab.signedPeerRecords {
+		seqs[p] = s.Seq
+	}
+	return out, seqs, nil
+}
